@@ -27,6 +27,34 @@ from .arch import WasmArchitecture
 from .arch import I32Register, I64Register, F32Register, F64Register
 
 
+class WasmSelectionGraphBuilder(SelectionGraphBuilder):
+    """Selection graph builder which keeps sign changing sub-word casts.
+
+    A cast between i8 and u8 or between i16 and u16 is no operation on
+    a register machine, but here such a value lives sign extended
+    respectively zero extended in an i32, so the cast must re-extend it.
+    """
+
+    f_map = dict(SelectionGraphBuilder.f_map)
+
+    def do_cast(self, node):
+        from_ty, to_ty = node.src.ty, node.ty
+        if (
+            from_ty.is_integer
+            and to_ty.is_integer
+            and from_ty is not to_ty
+            and from_ty.bits == to_ty.bits
+            and to_ty.bits < 32
+        ):
+            op = f"{str(from_ty).upper()}TO"
+            sgnode = self.new_node(op, to_ty, self.get_value(node.src))
+            self.add_map(node, sgnode.new_output(node.name))
+        else:
+            super().do_cast(node)
+
+    f_map[ir.Cast] = do_cast
+
+
 def ir_to_wasm(ir_module: ir.Module, reporter=None) -> components.Module:
     """Compiles ir-code to a wasm module.
 
@@ -248,7 +276,7 @@ class IrToWasmCompiler:
         # Generate function code:
         # Create a selection graph, so that we have expression trees
         arch = WasmArchitecture()
-        sdagb = SelectionGraphBuilder(arch)
+        sdagb = WasmSelectionGraphBuilder(arch)
         frame = arch.new_frame(function_name, None)
         self.fi = FunctionInfo(frame)
         prepare_function_info(arch, self.fi, ir_function)
@@ -538,6 +566,11 @@ class IrToWasmCompiler:
         "I16TOI32",
         "I32TOU16",
         "U16TOI32",
+        # 8 --- 8 and 16 --- 16, sign change
+        "I8TOU8",
+        "U8TOI8",
+        "I16TOU16",
+        "U16TOI16",
     }
 
     cast_operators2 = {
